@@ -184,7 +184,6 @@ def Adm (env : Env α) : Instr α → Prop
   | .isub r _ => withReg env r shaped
   | .addD r _ => withReg env r shaped
   | .subD r _ => withReg env r shaped
-  | .setitem _ i0 i1 _ => (i0.isNull != i1.isNull) = true     -- `A[:, :] = 0` is a no-op in the code (open finding)
   | .matmulM r B => B.shape.length = 2 ∧ withReg env r (fun C => C.vlen = (B.shape.getD 0 0 : Nat))
   | .rmatmulM B r => B.shape.length = 2 ∧ withReg env r (fun C => C.ulen = (B.shape.getD 1 0 : Nat))
   | .matmulD r s => withReg env s (fun O => 0 ≤ O.vlen ∧ withReg env r (fun C => C.vlen = O.ulen))
